@@ -32,6 +32,16 @@ impl Driven for D {
          _ => panic!("verif harness: unknown relation {}", rel),
       }
    }
+   fn clear(&mut self, rel: &str) {
+      match rel {
+         "score" => { self.0.score = Default::default(); },
+         "vip" => { self.0.vip = Default::default(); },
+         "cand" => { self.0.cand = Default::default(); },
+         "okp" => { self.0.okp = Default::default(); },
+         "ok3" => { self.0.ok3 = Default::default(); },
+         _ => panic!("verif harness: unknown relation {}", rel),
+      }
+   }
    fn run(&mut self) { self.0.run(); }
    fn dump(&self) -> Value {
       let mut m: Vec<(String, Value)> = vec![];
